@@ -313,7 +313,9 @@ class LowerToIRVisitor(Visitor.DefaultVisitor):
         self.v_Visit(expr.GetBody(), ctx)
         breakContinueInstructions = ctx.EndLoop()
 
-        # Conditional jump back to start or to end
+        # Conditional jump back to start or to end. The test gets its own
+        # block so `continue` can jump to it
+        conditionBB = ctx.CreateBasicBlock()
         condition = self.v_Visit(expr.GetCondition(), ctx)
         branch = LinearIR.BranchInstruction(startBB, None, condition)
         ctx.BasicBlock.AddInstruction(branch)
@@ -322,7 +324,7 @@ class LowerToIRVisitor(Visitor.DefaultVisitor):
         branch.SetFalseBlock(endBB)
 
         breakContinueInstructions.SetBreakTarget(endBB)
-        breakContinueInstructions.SetContinueTarget(startBB)
+        breakContinueInstructions.SetContinueTarget(conditionBB)
 
     def v_WhileStatement(self, expr: ast.WhileStatement, ctx: Context):
         # We lower this as following
